@@ -25,9 +25,24 @@ REQUIRED_THEOREMS = ['CfVerif.C12.refused_if_too_big', 'CfVerif.C12.upload_cover
                      'CfVerif.C12.write_flash_attempts_bounded', 'CfVerif.C12.write_flash_ok_only_if_acked',
                      'CfVerif.C12.gen_upload', 'CfVerif.C12.gen_upload_room', 'CfVerif.C12.gen_write_flash', 'CfVerif.C12.gen_retry_test',
                      'CfVerif.C12.gen_internal_flash', 'CfVerif.C12.gen_constants']
-TRUSTED = []
-ASSUMPTIONS = []
-RULE = ''
+TRUSTED = ['harness/corr/c12.py: extractor (AST -> Gen/C12.lean), fake link, Python twin of the Spec target, canonicalisers',
+           'Spec/C12.lean environment (written from protocol knowledge, cross-checked against its Python twin on every run): target = page buffers + flash '
+           'as byte maps; 0x14 load-buffer / 0x18 write-flash decoding; executes every write-flash command it receives; reply (id, 0x18, status, code)',
+           'link drivers modelled as a FIFO receive queue: receive_packet(0) = non-blocking get, receive_packet(t>0) = head of queue or None after the timeout',
+           "native byte order ('=BBHH') = little-endian; int((len-1)/page_size) (float division) = integer division (exact below 2^53)",
+           'Python struct / bytearray / slicing as in Base/Struct and Model/C12 (pySlice, List.drop)']
+ASSUMPTIONS = ['a positive write-flash reply (header 0xFF, (id, 0x18), status 1) is produced only by the target and only after it executed that command (Outcome.Genuine)',
+               'timing: a reply is never later than the start of the next write_flash call (a late reply becomes visible as soon as the receive of the attempt that caused it '
+               'has returned; the protocol has no sequence numbers, so a reply delayed across calls could acknowledge the wrong command); no reply is in flight when flashing starts',
+               'geometry as _update_info can produce it (16-bit fields, page_size > 0, buffer_pages > 0), target id a byte, image length >= 1, page_override None or >= 0',
+               'one target on the link (commands addressed to other target ids are ignored by the modelled target)',
+               'flash() orchestration (zip/manifest, soft-device, deck flashing), read_flash and the reset/info handshakes are outside the model; '
+               '_update_info is exercised only by the correspondence (real geometries)']
+RULE = ('cases = (flash) geometry x image length x outcome script x stale receive queue x override x terminate/progress callbacks: every length 0..2 buffer-fulls+ for '
+        'small adversarial geometries (page 1..51, buffers 1..5), lengths around every page/buffer/capacity multiple otherwise, the real nRF51/STM32 geometries through the '
+        'real getInfo handler; (upload) every buffer length 0..79 + multiples of 25 and 16-bit address overflow; (wflash) EVERY script of length <= 3 over 8 outcome kinds, '
+        'the sixth-attempt neighbourhood, random argument/ script/ stale-queue combinations incl. malformed replies. non-trivial = distinct (kind, all inputs) tuple; '
+        'compared: result/exception class, every transmitted packet (hex), probed flash and buffer pages, outcomes left, receive-queue length')
 
 BOOT = 'cflib/bootloader/__init__.py'
 CLOAD = 'cflib/bootloader/cloader.py'
@@ -556,7 +571,7 @@ def mk_case(rng, key, ps, bp, fp, sp, ln, script=None, **kw):
 def gen_flash_cases(ctx):
     rng = ctx.rng
     thorough = ctx.tier == 'thorough'
-    cases = []
+    cases = load_corpus()
     # (a) small adversarial geometries x every length up to more than two buffer-fulls, fault-free + random faults
     small = [(1, 1), (1, 3), (2, 2), (3, 1), (4, 3), (5, 2), (7, 4), (24, 2), (25, 1), (25, 3), (26, 2), (50, 2), (51, 1)]
     if thorough:
@@ -721,5 +736,148 @@ def correspond(ctx):
             ctx.disagree(kind, line[:600], model[:600], real[:600])
 
 
+# ------------------------------------------------------------------------------------------------------
+# failing-input search: the property itself (Python twin of the Lean spec) on the real code's observable behaviour
+# ------------------------------------------------------------------------------------------------------
+def positive(tid, pkt):
+    h, d = pkt
+    return h == 0xFF and len(d) >= 3 and d[0] == tid and d[1] == 0x18 and d[2] == 1
+
+
+def genuine(tid, script):
+    return all(o[0] or o[1] is None or not positive(tid, o[1]) for o in script)
+
+
+def in_scope(c):
+    """the hypotheses of the property: geometry as a bootloader reports it, image >= 1 byte, genuine replies"""
+    return (0 < c['ps'] < 65536 and 0 < c['bp'] < 65536 and 0 <= c['fp'] < 65536 and 0 <= c['sp'] < 65536 and c['addr'] == c['key']
+            and len(c['image']) >= 1 and (c['override'] is None or c['override'] >= 0) and genuine(c['key'], c['script']))
+
+
+MAX_ATTEMPTS = 16     # "bounded": the Lean theorem pins the exact bound (retryInit + 1 = 6) through Gen
+
+
+def property_failures(c, res, link, twin):
+    """returns [(key, what, detail)] - violations of C12 on this run of the real code"""
+    out = []
+    tid, ps, bp, fp = c['key'], c['ps'], c['bp'], c['fp']
+    img = bytes(c['image'])
+    S = eff_start(c)
+    n = n_pages(len(img), ps)
+    if len(img) > (fp - S) * ps:
+        if res != 'nospace' or link.sent:
+            out.append(('too-big-not-refused', 'an image that does not fit from the effective start page was not refused before transmitting', 'result=%s packets=%d' % (res, len(link.sent))))
+        return out
+    # (1) every command within buffers and within [S, S+n) (itself within the flash); pages outside untouched
+    uploads, cur = [], None
+    groups = []          # maximal runs of identical flash-write packets: [packet, first index, count]
+    for idx, (h, d) in enumerate(link.sent):
+        cmd = twin.decode(h, d)
+        if cmd is None:
+            out.append(('undecodable-packet', 'a transmitted packet is not a command of the target', '%d:%s' % (h, d.hex())))
+            continue
+        if cmd[0] == 'load':
+            _, page, addr, data = cmd
+            if len(d) > 31:
+                out.append(('packet-too-long', 'buffer-upload message longer than 31 bytes after the header', '%d bytes' % len(d)))
+            if not (page < bp and addr + len(data) <= ps):
+                out.append(('load-out-of-bounds', 'load-buffer command outside the page buffers', 'page=%d addr=%d len=%d' % (page, addr, len(data))))
+            if addr == 0 and (cur is None or cur['writes']):
+                cur = {'page': page, 'writes': []}
+                uploads.append(cur)
+            if cur is None or cur['page'] != page:
+                cur = {'page': page, 'writes': []}
+                uploads.append(cur)
+            cur['writes'] += [(addr + j, b) for j, b in enumerate(data)]
+        else:
+            _, b0, f0, cnt = cmd
+            cur = None
+            if not (b0 + cnt <= bp and S <= f0 and f0 + cnt <= S + n and S + n <= fp):
+                out.append(('write-out-of-bounds', 'flash-write command outside the image range / flash / buffers', 'buf=%d flash=%d count=%d range=[%d,%d) flash_pages=%d' % (b0, f0, cnt, S, S + n, fp)))
+            if groups and groups[-1][0] == (h, d) and groups[-1][1] + groups[-1][2] == idx:
+                groups[-1][2] += 1
+            else:
+                groups.append([(h, d), idx, 1])
+    for q in twin.flashpg:
+        if not (S <= q < S + n and q < fp):
+            out.append(('page-outside-range', 'a flash page outside the range the image occupies was written', 'page=%d range=[%d,%d)' % (q, S, S + n)))
+    # (2) buffer uploads cover every byte of every page exactly once at its offset
+    for i, u in enumerate(uploads):
+        chunk = img[i * ps:(i + 1) * ps]
+        if u['page'] != i % bp or sorted(u['writes']) != [(o, chunk[o]) for o in range(len(chunk))]:
+            out.append(('upload-coverage', 'buffer upload does not cover each byte of the page exactly once at its offset', 'page index %d buffer %d' % (i, u['page'])))
+            break
+    # (3) success means the image is in flash
+    if res == 'done':
+        bad = [k for k in range(len(img)) if twin.flash(S + k // ps, k % ps) != img[k]]
+        if bad:
+            out.append(('flash-not-image', 'flashing reported success but flash does not hold the image', 'first bad byte %d of %d' % (bad[0], len(img))))
+    # (4) retries bounded; a flush that was never positively answered ends the run with an error, nothing follows
+    used = 0
+    for gi, (pkt, first, count) in enumerate(groups):
+        outs = [(c['script'][j] if j < len(c['script']) else o_ok(tid)) for j in range(used, used + count)]
+        used += count
+        if count > MAX_ATTEMPTS:
+            out.append(('retries-unbounded', 'a flash-write command was transmitted more than %d times' % MAX_ATTEMPTS, 'count=%d' % count))
+        acked = any(o[1] is not None and positive(tid, o[1]) for o in outs)
+        last = first + count == len(link.sent)
+        if not acked and (not last or res == 'done'):
+            out.append(('continued-after-failed-flush', 'a flash-write command that was never positively answered did not abort the flashing',
+                        'flush #%d attempts=%d result=%s packets after=%d' % (gi, count, res, len(link.sent) - first - count)))
+    return out
+
+
+def search_cases(ctx):
+    rng = ctx.rng
+    cases = []
+    tid = 0xFF
+    # the scenarios the clauses are about, on a small geometry: stale positive reply + lost command, failures at each flush,
+    # late replies crossing into the next flush, exact multiples, override at the capacity boundary
+    for ps, bp, npg in [(4, 3, 7), (25, 2, 4), (5, 1, 3)]:
+        for ln in sorted({npg * ps, npg * ps - 1, (npg - 1) * ps + 1}):
+            for script, inbox in [([], []),
+                                  ([O_LOST] * 6, [(0xFF, bytes([tid, 0x18, 1, 0]))]),
+                                  ([O_LOST] * 5 + [o_ok(tid)], []),
+                                  ([o_ok(tid, True), O_LOST] + [O_LOST] * 6, []),
+                                  ([O_LOST, o_ok(tid, True), o_ok(tid), O_LOST, O_LOST, O_LOST, O_LOST, O_LOST, O_LOST], []),
+                                  ([o_ok(tid)] + [O_RLOST] * 6, []),
+                                  ([o_ok(tid), o_neg(tid)], []),
+                                  ([(True, (0xFF, bytes([tid, 0x14, 1, 0])), False)] * 7, [])]:
+                cases.append(mk_case(rng, tid, ps, bp, 3 + npg + 1, 3, ln, script=list(script), inbox=list(inbox)))
+    cases += gen_flash_cases(ctx)
+    return cases
+
+
+def load_corpus():
+    d = os.path.join(VERIF, 'harness', 'corpus', 'c12')
+    res = []
+    if os.path.isdir(d):
+        for f in sorted(os.listdir(d)):
+            if f.endswith('.json'):
+                j = json.load(open(os.path.join(d, f)))
+                for c in j.get('cases', []):
+                    c = dict(c)
+                    c['image'] = bytes.fromhex(c['image'])
+                    c['script'] = [(o[0], None if o[1] is None else (o[1][0], bytes.fromhex(o[1][1])), o[2]) for o in c['script']]
+                    c['inbox'] = [(h, bytes.fromhex(x)) for h, x in c['inbox']]
+                    res.append(c)
+    return res
+
+
 def search(ctx):
-    pass
+    seen = set()
+    for c in search_cases(ctx):
+        if not in_scope(c):
+            ctx.count('search:out-of-scope')
+            continue
+        res, link, twin = run_real_flash(c)
+        ctx.count('search:evaluated')
+        for key, what, detail in property_failures(c, res, link, twin):
+            if key in seen:
+                ctx.count('witnesses-suppressed')
+                continue
+            seen.add(key)
+            ctx.witness(key, what, {'geom': {'target': c['key'], 'page_size': c['ps'], 'buffer_pages': c['bp'], 'flash_pages': c['fp'], 'start_page': c['sp']},
+                                    'page_override': c['override'], 'image': bytes(c['image']).hex(), 'script': [fmt_outcome(o) for o in c['script']],
+                                    'inbox': ['%d:%s' % (h, d.hex()) for h, d in c['inbox']], 'terminate_cb': c['term'], 'progress_cb': c['progress']},
+                        detail=detail, result=res)
